@@ -1,5 +1,6 @@
 SPECIFICATION Spec
 CONSTANT MatchMode = "search"
+CONSTANT PubMode = "all"
 CONSTANT StoreLiteral = TRUE
 INVARIANT Emit
 CHECK_DEADLOCK FALSE
